@@ -164,6 +164,16 @@ class ElectronRepulsionIntegral(BaseFourIndexSymmetric):
         ) < cls._transfer_amplification(cont_one, cont_two, cont_three, cont_four)
         if swapped:
             cont_one, cont_two, cont_three, cont_four = cont_three, cont_four, cont_one, cont_two
+        # Within a pair the angular momentum is built on the first shell and the recursions multiply
+        # by the distance between the Gaussian product centre and that shell, scaled by ratios of
+        # exponents. Keep the tighter shell first, so that this distance vanishes for the tight
+        # primitives; since (ab|cd) = (ba|cd) = (ab|dc), swap back at the end.
+        swapped_one = np.max(cont_two.exps) > np.max(cont_one.exps)
+        if swapped_one:
+            cont_one, cont_two = cont_two, cont_one
+        swapped_two = np.max(cont_four.exps) > np.max(cont_three.exps)
+        if swapped_two:
+            cont_three, cont_four = cont_four, cont_three
         if cont_one.angmom == cont_two.angmom == cont_three.angmom == cont_four.angmom == 0:
             integrals = _compute_two_elec_integrals_angmom_zero(
                 cls.boys_func,
@@ -205,6 +215,10 @@ class ElectronRepulsionIntegral(BaseFourIndexSymmetric):
                 cont_four.coeffs,
             )
         integrals = np.transpose(integrals, (4, 0, 5, 1, 6, 2, 7, 3))
+        if swapped_two:
+            integrals = np.transpose(integrals, (0, 1, 2, 3, 6, 7, 4, 5))
+        if swapped_one:
+            integrals = np.transpose(integrals, (2, 3, 0, 1, 4, 5, 6, 7))
         if swapped:
             integrals = np.transpose(integrals, (4, 5, 6, 7, 0, 1, 2, 3))
         return integrals
